@@ -4,7 +4,7 @@
 From Coq Require Import Extraction ExtrOcamlBasic.
 From Prtpy Require Import Base.Prelude Base.Perms Model.Binner Model.Objectives Model.Greedy Model.Packing
      Model.Covering Model.KK Model.CG Model.DP Model.CBLDM Model.InExTree Model.SNP Model.BinCompletion
-     Oracle.Reach Oracle.Checkers.
+     Oracle.Reach Oracle.Checkers Model.BinnerHeap Spec.AbsBins.
 
 Extraction Language OCaml.
 
@@ -32,4 +32,5 @@ Separate Extraction
   BinCompletion.is_dominant BinCompletion.undominated_pairs
   Reach.reach Reach.opt_value Reach.min_bins Reach.max_cover Reach.opt_balanced2 Reach.reach_unsorted Reach.pack_states
   Checkers.is_partition_b Checkers.is_packing_b Checkers.nonempty_b Checkers.is_cover_b Checkers.anyfit_b
-  Checkers.ascending_b Checkers.wf_b Checkers.same_items_b.
+  Checkers.ascending_b Checkers.wf_b Checkers.same_items_b
+  BinnerHeap.step BinnerHeap.observe BinnerHeap.empty_state AbsBins.pure_step AbsBins.disciplined_b.
